@@ -3,9 +3,9 @@ package verifharness
 // C12 — a print call's result depends only on its own arguments.
 
 import (
-	"io"
 	"bytes"
 	"fmt"
+	"io"
 	"runtime"
 	"runtime/debug"
 	"sync"
